@@ -419,6 +419,9 @@ func ExtremeFamilies(r *rand.Rand, g func(*rand.Rand) string, n int, accept func
 		}
 		// Later runs (labels, post/dev numbers) are the less exercised ones.
 		x := runs[len(runs)-1-r.Intn(len(runs))%((len(runs)+1)/2)]
+		if r.Intn(3) == 0 {
+			x = runs[r.Intn(len(runs))] // any run, the first (an epoch, a major number) included
+		}
 		for _, e := range append([]string{"0", "1"}, extremes...) {
 			t := s[:x[0]] + e + s[x[1]:]
 			if seen[t] {
